@@ -185,8 +185,9 @@ def compileVar (aop : AOp) (k : Kind) (upn : Nat) (u : Upn) (ib : Bool) (rhs : O
   | .set, .expr _ => .arm "varSetExpr" (varLabels k u ib) (("e.Fun", .clo k ids.rhs ry) :: varStore upn)
   | .bin op, .const c =>
     if op.isShift then
-      -- `varShlConst`: count type checked by setVar; a zero count returns before the kind switch
-      (if isLit c 0 then .nop
+      -- setVar: the shifted operand must be an integer; `varShlConst`: a zero count is a no-op
+      (if !isIntCat k then .error
+       else if isLit c 0 then .nop
        else if isIntCat k then .arm ("var" ++ opFn op ++ "Const") (varLabels k u ib)
               (("ival", .iface c) :: ("constAsUint64(ival)", .pair (.val c) (.val (.bool true))) :: varStore upn)
        else .error)
